@@ -4,11 +4,11 @@ from .. import s1
 MANIFEST = {
     "engine": "S1-JitCache",
     "technique": "TLA+ spec of the jit.py cache protocol model-checked by TLC over all interleavings; TLC behaviours replayed on real processes and recorded executions validated against the spec",
-    "text": "Fault enumeration by TLC: for every control point of a builder or waiter (15) and every failure kind (code generation, compiler, "
-            "linker) TLC produces the shortest behaviour reaching a SIGKILL / failure there; each is replayed on real processes (real SIGKILL of the "
+    "text": "Fault enumeration by TLC: for every control point of a builder or waiter (16) and every failure kind (code generation, compiler, "
+            "linker - caused through the API by a library that does not exist -, writing the ready marker, echoing the build log with cffi_verbose) TLC produces the shortest behaviour reaching a SIGKILL / failure there; each is replayed on real processes (real SIGKILL of the "
             "process group while parked at that call; half-written .so), followed by sequences of later requests, and the recorded executions are "
             "validated against the spec: failure releases the lock (.failed), handlers/stdout/cwd restored at return or raise, no load of an "
-            "incomplete module, bounded polls. Same engine as C14: JitCache.tla (one action per file-system operation of jit.py/cffi) is checked exhaustively by TLC for 3-4 processes, "
+            "incomplete module, bounded polls, and a request that met no fault itself never ends in a build failure (UnfaultedNeverFails). Same engine as C14: JitCache.tla (one action per file-system operation of jit.py/cffi) is checked exhaustively by TLC for 3-4 processes, "
             "1-2 module keys, bounded requests/kills/failures (mutual exclusion, marker-implies-complete, no partial load, one build, "
             "reuse, same objects, no timeout when timely, liveness). Conformance both ways on the real code: TLC-simulated schedules are "
             "replayed step by step on real OS processes running the unmodified compile_forms (proxies on jit.open/os/time/importlib, CC wrapper) "
